@@ -205,6 +205,68 @@ class BVContext:
         name = f"{show(src)}[{j}]"
         return self.apply_facts(BV.sym(self.syms, name, 8))
 
+    @staticmethod
+    def affine_lookup(table, ix: BV | None) -> BV | None:
+        """TABLE[ix] for a constant table of 2^n non-negative ints and an n-bit index whose bits are affine forms: exact when the
+        table is an affine map over GF(2) of its index (T[i] = T[0] ^ XOR_k bit_k(i)*(T[2^k]^T[0]), checked on all entries - true of
+        every CRC lookup table); else TOP."""
+        n = len(table).bit_length() - 1
+        if ix is None or ix.neg_ones or not ix.known() or len(table) != 1 << n or n == 0 or ix.width() > n:
+            return None
+        if not all(isinstance(v, int) and not isinstance(v, bool) and v >= 0 for v in table):
+            return None
+        t0 = table[0]
+        basis = [table[1 << k] ^ t0 for k in range(n)]
+        for i, v in enumerate(table):
+            acc = t0
+            for k in range(n):
+                if i >> k & 1:
+                    acc ^= basis[k]
+            if acc != v:
+                return None
+        w = max(v.bit_length() for v in table)
+        out = []
+        for j in range(w):
+            f = t0 >> j & 1
+            for k in range(n):
+                if basis[k] >> j & 1:
+                    f ^= ix.bit(k)
+            out.append(f)
+        return BV(out)
+
+    @staticmethod
+    def nonaffine_witness(table, ix: BV | None):
+        """(i, T[i], affine prediction) for the first entry at which a 2^n table deviates from the affine map fixed by T[0] and
+        T[2^k], provided the index forms are linearly independent (every entry is reachable); else None."""
+        n = len(table).bit_length() - 1
+        if ix is None or ix.neg_ones or not ix.known() or len(table) != 1 << n or n == 0 or ix.width() > n:
+            return None
+        if not all(isinstance(v, int) and not isinstance(v, bool) and v >= 0 for v in table):
+            return None
+        rows = [ix.bit(k) & ~1 for k in range(n)]  # linear parts
+        piv = {}
+        for r in rows:
+            while r:
+                h = r.bit_length() - 1
+                if h in piv:
+                    r ^= piv[h]
+                else:
+                    piv[h] = r
+                    break
+        rank = len(piv)
+        if rank != n:
+            return None
+        t0 = table[0]
+        basis = [table[1 << k] ^ t0 for k in range(n)]
+        for i, v in enumerate(table):
+            acc = t0
+            for k in range(n):
+                if i >> k & 1:
+                    acc ^= basis[k]
+            if acc != v:
+                return i, v, acc
+        return None
+
     def apply_facts(self, bv: BV) -> BV:
         if not self.facts:
             return bv
@@ -232,6 +294,8 @@ class BVContext:
             base, idx = t[1], t[2]
             if is_const(idx) and isinstance(idx[1], int):
                 return self.byte_of(base, idx[1])
+            if is_const(base) and isinstance(base[1], (tuple, list)):
+                return self.affine_lookup(base[1], self.to_bv(idx))
             return None
         if k == "bin":
             op, a, b = t[1], self.to_bv(t[2]), self.to_bv(t[3])
